@@ -1,0 +1,13 @@
+//go:build !verif
+
+package swap
+
+import "time"
+
+func verifPayTiming(retry, interval time.Duration) (time.Duration, time.Duration) {
+	return retry, interval
+}
+
+func verifRetransmitInterval(d time.Duration) time.Duration { return d }
+
+func verifSkipBackoff() bool { return false }
